@@ -42,6 +42,12 @@ SCRATCH_ROOT = os.environ.get("VERIF_SCRATCH", "/var/tmp/nfverif")
 # generous resource limit: proofs use a few percent of it; a proof that needs more is split, not given more
 DEFAULT_RLIMIT = 150
 
+# std functions whose vstd specification is complete (result fully determined): a new call to one of these does not
+# make a failed proof inconclusive
+STRONG_SPEC = {"max", "min", "saturating_sub", "saturating_add", "checked_sub", "checked_add", "wrapping_sub", "wrapping_add",
+               "len", "is_empty", "push", "extend_from_slice", "contains_key", "contains", "insert", "is_some", "is_none",
+               "is_ok", "is_err", "unwrap_or", "Some", "Ok", "Err", "None", "if", "match", "let", "return", "for", "while"}
+
 OFFLINE_ENV = {"CARGO_NET_OFFLINE": "true"}
 
 LOGICAL = re.compile(
@@ -808,7 +814,7 @@ def finish(prop, tier, seed, units, results, ledger, findings, fixed, pmeta, arg
                     c0 = cur.get(lab)
                     if b0 is None or c0 is None:
                         continue
-                    newc = sorted(set(c0.get("callees", [])) - set(b0.get("callees", [])))
+                    newc = sorted(set(c0.get("callees", [])) - set(b0.get("callees", [])) - STRONG_SPEC)
                     if c0.get("closures", 0) > b0.get("closures", 0):
                         newc.append("<a new closure>")
                     if newc:
